@@ -71,7 +71,7 @@ Theorem C02_payout_nonneg : forall P bk supply vault MP t0 sw sd,
 Proof. exact payout_over_histories. Qed.
 Print Assumptions C02_payout_nonneg.
 
-From Sge Require Import Gen.kernels Proofs.GenKernels.
+From Sge Require Import Gen.kernels Proofs.GenOb.
 (* the max-loss bookkeeping of one fulfilment and the liquidity trimming / round reset of a re-queue in the model ARE the Go methods
    (exposure.SetCurrentRound, participation.SetCurrentRound / setMaxLoss, TrimCurrentRoundLiquidity, ResetForNextRound, the two eligibility tests):
    generated from x/orderbook/types on every run and proved equal to the model's functions *)
